@@ -134,7 +134,19 @@ def battery():
         t.attrs.pop("class")
         t.append(tags.span("late"))
         expect_same("tag changed after a render", t.get_html_string(), tags.div("t", tags.span("late")).get_html_string())
-        return dg(h1, d2.render()["html"], str(page))
+        # a document is rendered, a tag inside its content is changed, the document is rendered again
+        inner = tags.div("in", id="inner")
+        d3 = HTMLDocument(inner, tags.p("x"), lang="en")
+        d3.render(lib_prefix=None)
+        d3.render()
+        inner.append(tags.b("later"), dep("later-dep"))
+        inner.add_class("changed")
+        r3 = d3.render()
+        f3 = HTMLDocument(tags.div("in", tags.b("later"), dep("later-dep"), id="inner", class_="changed"),
+                          tags.p("x"), lang="en").render()
+        expect_same("document rendered again after a tag inside its content changed",
+                    (r3["html"], deps_sig(r3["dependencies"])), (f3["html"], deps_sig(f3["dependencies"])))
+        return dg(h1, d2.render()["html"], str(page), r3["html"])
 
     def text_document_b():
         ser = dep("solo").serialize_to_script_json().get_html_string()
